@@ -42,6 +42,8 @@ type FaultPlan struct {
 	YieldAt int
 	Yield   func()
 	Yields  int
+	// YieldOnDelete: count only DELETE statements (a rewind in progress) towards YieldAt
+	YieldOnDelete bool
 
 	// observed
 	Count      int  // counted statements seen in the window
@@ -51,6 +53,7 @@ type FaultPlan struct {
 	BeginFail  int
 	Snapshots  int
 	Rollbacks  int
+	Deletes    int
 }
 
 type faultRegistry struct {
@@ -179,7 +182,15 @@ func (f *faultRegistry) authorize(file string, op int, a1, a2, a3 string) int {
 		p.Snapshots++
 	}
 	var yield func()
-	if p.YieldAt != 0 && p.Count == p.YieldAt && p.Yield != nil {
+	if p.YieldOnDelete {
+		if op == sqlite3.SQLITE_DELETE {
+			p.Deletes++
+			if p.YieldAt != 0 && p.Deletes == p.YieldAt && p.Yield != nil {
+				yield = p.Yield
+				p.Yields++
+			}
+		}
+	} else if p.YieldAt != 0 && p.Count == p.YieldAt && p.Yield != nil {
 		yield = p.Yield
 		p.Yields++
 	}
